@@ -36,6 +36,13 @@ def run(tier):
     for rel, q, c, tag in ND.ITEMS:
         if tag == 'C18':
             reps.append(deductive.verify_function(rel, q, c, hooks=ND.hooks(), prefix='%s::%s[n-dimensional, L2]' % (rel, q)))
+    # the marginal oracles LocalInference optimises through: message equations of the three routines, value-level (same contracts as C16 / C17)
+    from ..contracts import hps as H
+    reps.append(deductive.verify_function(H.ITEM[0], H.ITEM[1], H.ITEM[2], hooks=H.hooks(), prefix='%s::%s[update equations]' % H.ITEM[:2]))
+    from ..contracts import fgbp as FG
+    reps.append(deductive.verify_function(FG.ITEM[0], FG.ITEM[1], FG.ITEM[2], hooks=FG.hooks(), prefix='%s::%s[message equations]' % FG.ITEM[:2]))
+    from ..contracts import gbpmsg as GB
+    reps.append(deductive.verify_function(GB.ITEM[0], GB.ITEM[1], GB.ITEM[2], hooks=GB.hooks(), prefix='%s::%s[message equations]' % GB.ITEM[:2]))
     from ..contracts import exactmsg as XM
     for rel2, q2, c2, sites, tag in XM.ITEMS:
         if tag == 'C18':
